@@ -171,7 +171,7 @@ def _escape_docstring_source(src: str) -> str:
 def _ds(text: str, indent: int) -> str:
     """A docstring statement holding `text`, every line indented like the statement."""
     pad = " " * indent
-    body = "\n".join((pad + l) if l.strip() else "" for l in text.split("\n"))
+    body = "\n".join((pad + l) if l.strip() else "" for l in text.split("\n")).replace('"', '\\"')
     return f'{pad}"""\n{body}\n{pad}"""\n'
 
 
@@ -447,6 +447,19 @@ def run_pydoctor(job: Dict[str, Any]) -> Dict[str, Any]:
         fp = src / rel
         fp.parent.mkdir(parents=True, exist_ok=True)
         fp.write_text(content, encoding="utf8")
+    import ast
+    planted_ok = job["kind"] in ("modname", "projname", "projurl")
+    for rel, content in g["files"].items():
+        try:
+            tree = ast.parse(content)
+        except (SyntaxError, ValueError) as e:
+            return {"generator_error": f"{job['kind']}/{job['variant']}: {rel}: {e}", "kind": job["kind"], "variant": job["variant"],
+                    "payload": p, "role": job["role"], "rc": "generator", "err": str(e), "pages": {}, "occ": [], "malformed": [], "events": [], "log": ""}
+        planted_ok = planted_ok or any(isinstance(n, ast.Constant) and isinstance(n.value, str) and p in n.value for n in ast.walk(tree))
+    if not planted_ok:
+        return {"generator_error": f"{job['kind']}/{job['variant']}: payload {p!r} is not in the generated source", "kind": job["kind"],
+                "variant": job["variant"], "payload": p, "role": job["role"], "rc": "generator", "err": "", "pages": {}, "occ": [],
+                "malformed": [], "events": [], "log": ""}
     events: List[List[Any]] = []
     undo = instrument(events, fs)
     out = base / "out"
@@ -657,7 +670,7 @@ def run(ctx: Ctx) -> int:
     kinds = [k for k in KINDS if k in model]
     plan: List[Tuple[str, str, str, bool]] = [(k, v, p, True) for k in kinds for v, p in VARIANTS.items()]
     for k in kinds:
-        for i in range(2 if ctx.quick else 40):
+        for i in range(2 if ctx.quick else 100):
             plan.append((k, f"random{i}", random_payload(rng), False))
     jobs: List[Dict[str, Any]] = []
     for k, v, p, _ in plan:
@@ -668,6 +681,9 @@ def run(ctx: Ctx) -> int:
     finally:
         pool.close()
         pool.join()
+    gen_errors = [x["generator_error"] for x in results if x.get("generator_error")]
+    if gen_errors:
+        raise MachineryError(f"generator produced invalid input: {gen_errors[:3]}")
     observed_records: List[Any] = []
     twin: List[Any] = []
     pair_seen: Dict[Tuple[str, str, str, bool], Set[int]] = {}
